@@ -1,7 +1,7 @@
 #!/bin/bash
 # tools/run_all.sh [tier]  — runs every check registered in MANIFEST.json once, prints one line each
 tier=${1:-quick}
-cd /verif
+cd "$(dirname "$0")/.."
 for p in $(python3 -c "import json;print(' '.join(c['property_id'] for c in json.load(open('MANIFEST.json'))['checks']))"); do
   out=$(./check $p $tier 2>&1); rc=$?
   echo "$p rc=$rc $(echo "$out" | grep -E "^$p $tier:" | tail -1)"
